@@ -118,6 +118,11 @@ func Model(r *rand.Rand, opt ModelOpt) *openfgav1.AuthorizationModel {
 		}
 	}
 	m := &openfgav1.AuthorizationModel{SchemaVersion: "1.1"}
+	if r.Intn(2) == 0 {
+		// models fetched from a store carry an id; DIFFERENT models may carry the SAME id (edited and reloaded), so
+		// nothing may be remembered under it
+		m.Id = []string{"01HVMMBCMGZNT3SED4Z17ECXCA", "01HVMMBCMGZNT3SED4Z17ECXCA", "01J0000000000000000000000A", "m"}[r.Intn(4)]
+	}
 	for _, t := range terms {
 		m.TypeDefinitions = append(m.TypeDefinitions, &openfgav1.TypeDefinition{Type: t})
 	}
